@@ -204,6 +204,26 @@ CLAIMED.update({
 NOT_YET = {}
 
 
+
+# sentences added by later rounds (wave 6): what each check additionally generates / asserts
+EXTRA = {
+    "C01": " Wave 6: a mesh_ pass - mesh_(F, val, link) with F = val + mesh_(F)[link], links made onto existing idle instances and re-pointed, acyclic by construction - compares every instance's result with the fixpoint at every cycle (an instance that ran before the sibling it reads, or was not re-run, shows as a stale value); found and fixed F25.",
+    "C02": " Wave 6: programs may contain dynamic children with their own timers (map_ children coming and going, reduce combiners created / re-bound / retired, switch_ branches replaced), half of them 'settling' nodes that publish only when their alarm fires; the pending-request model is keyed by child-graph instance and voids a stopped child's requests; found and fixed F30.",
+    "C03": " Wave 6: nodes issue run-time make_passive() / make_active() on plain inputs at the end of chosen evaluations; the reference model carries the dynamic active set and the active() answers are compared.",
+    "C04": " Wave 6: the filtered iteration accessors (modified_items / valid_items / modified_values / valid_values) of every list / bundle view, producer and consumer side, must list exactly the children whose own flags read true in that cycle.",
+    "C07": " Wave 6: a shared-context stage - one GlobalContext spans several wire + run rounds of recording programs (dense and sparse testing recorder) with the state copied back after every run (the eval_node / lower idiom); every round must equal the program's run in a fresh process.",
+    "C08": " Wave 6: a passive feedback reader may be preceded by an intern-eligible twin of the same node that reads the feedback actively; the passive one must stay a node of its own and the loop must go quiet.",
+    "C09": " Wave 6: the application is also hosted inside a switch_ branch or a map_ child that starts mid-run while its inputs already hold values (inlined vs nested inside that child); known finding F28 covers sub-graphs that depend on modified() in the child's start cycle.",
+    "C10": " Wave 6: map_ over lists (fixed size, and dynamic lists that grow to 70 elements with holes) compared per index with the function run alone; map_ with an explicit __keys__ key set, where a key may be live before / without its element and the function has a start-active node (the function alone is run per lifetime from the appearance time).",
+    "C12": " Wave 6: branches that end in a reduce over a held dictionary (a re-pointing forwarding terminal), compared by state with the reduce run alone from the switch time while the dictionary grows and shrinks.",
+    "C14": " Wave 6: two more kinds of live dynamic children - map_ over a dynamic list and the ordered (left-fold) reduce whose chain is rebuilt on every length change; found and fixed F26, recorded F27.",
+    "C15": " Wave 6: the library's own lifted kernels (floordiv_, mod_) under node-level error capture, dividing by a scripted divisor that hits 0, optionally read passively.",
+    "C19": " Wave 6: families with variadic overloads; the independent matcher checks every trailing argument against the tail pattern under the bindings made by the fixed parameters (match / no-match / winner / output type; the relative rank of variadic overloads is not asserted).",
+    "C20": " Wave 6: a recorded top-level set / dictionary whose first tick carries no element must become valid in the same cycle when replayed and when re-applied through apply_delta.",
+}
+for _k, _v in EXTRA.items():
+    CLAIMED[_k]["text"] += _v
+
 def main():
     props = [json.loads(l) for l in (VERIF / "properties.jsonl").read_text().splitlines() if l.strip()]
     checks, na = [], []
